@@ -83,7 +83,7 @@ class Gen(object):
             rng.shuffle(w)
             parts = [g] + w
         if self.o.get('spell', True) and rng.random() < 0.2:
-            parts = [g] + [self.respell(w) for w in parts[1:]]
+            parts = [g if rng.random() < 0.7 else g[0] + '0' + g[1:]] + [self.respell(w) for w in parts[1:]]
             if rng.random() < 0.25:
                 self.emit(''.join(parts))       # "G1X5Y5": no blanks at all
                 return
@@ -179,6 +179,8 @@ class Gen(object):
         ey = F('%.3f' % (float(cy) + r0 * math.sin(a0 + sweep)))
         nd = 5 if U.um != 1 else 3
         code = 'G3' if sweep > 0 else 'G2'
+        if self.o.get('spell', True) and rng.random() < 0.15:
+            code = code[0] + rng.choice(['0', '00']) + code[1:]          # G02 / G003: hosts pass the code as written
         parts = [code, 'X' + self.coord('x', ex), 'Y' + self.coord('y', ey)]
         if rng.random() < 0.75:
             parts += ['I' + fmt((cx - U.x) / U.um, nd), 'J' + fmt((cy - U.y) / U.um, nd)]
